@@ -4,6 +4,7 @@ deterministically (clock, urandom, statfs, dir order owned through libvp / test 
 import os, shutil, subprocess, hashlib, stat, itertools, tempfile, errno
 from . import build, content as contentmod, taglog
 
+REBASE_INODES = os.environ.get("VP_REBASE_INODES", "1") != "0"
 T0 = 1_600_000_000          # base of every file mtime written by the lab
 NOW = T0 + 10_000_000       # frozen clock default
 LEVEL_NAMES = ["parity", "2-parity", "3-parity", "4-parity", "5-parity", "6-parity"]
@@ -368,10 +369,11 @@ class Lab:
                         groups[key] = rel
                         with open(fp, "rb") as f:
                             ents[rel] = ("f", f.read(), st.st_mtime_ns, stat.S_IMODE(st.st_mode))
+        inodes = {rel: os.lstat(self.p(rel)).st_ino for rel, e in ents.items() if e[0] in ("f", "h")}
         return dict(ents=ents, versions={k: list(v) for k, v in self.versions.items()}, time=self.time,
-                    t=getattr(self, "_t", 0), cfg=self.cfg, root=self.root)
+                    t=getattr(self, "_t", 0), cfg=self.cfg, root=self.root, inodes=inodes)
 
-    def restore(self, saved):
+    def restore(self, saved, inodes=True):
         for n in os.listdir(self.root):
             if n == "log":
                 continue
@@ -402,10 +404,62 @@ class Lab:
                 later.append((rel, e[1]))
         for rel, target in later:
             os.link(self.p(target), self.p(rel))
+        if inodes and REBASE_INODES and saved.get("inodes"):
+            self._rebase_inodes(saved)
         self.versions = {k: list(v) for k, v in saved["versions"].items()}
         self.time = saved["time"]
         self._t = saved["t"]
         self.cfg = saved["cfg"]
+
+    def _rebase_inodes(self, saved):
+        """the re-created data files have new inode numbers: the inode recorded for each file in the content copies is mapped
+        the same way (old number -> number of the re-created file), so that a materialised state looks to the tool exactly
+        like the state that was saved (same files in place), not like a disk restored from a backup.  A recorded inode
+        that belonged to no file at save time is mapped to a number that belongs to no file now.  A content copy that the
+        independent codec cannot reproduce byte for byte (damaged, foreign) is left alone."""
+        from . import content as C
+        cfg = saved["cfg"]
+        per_disk = {}
+        for rel, old in saved["inodes"].items():
+            top = rel.split("/", 1)[0]
+            if top in cfg.disknames:
+                try:
+                    per_disk.setdefault(top, {})[old] = os.lstat(self.p(rel)).st_ino
+                except FileNotFoundError:
+                    pass
+        used = {n for m in per_disk.values() for n in m.values()}
+        spare = [max(used | {1 << 20}) + 1000]
+        for cpath in cfg.contents:
+            for rel in (cpath, cpath + ".tmp"):
+                fp = self.p(rel)
+                if not os.path.isfile(fp) or os.path.islink(fp):
+                    continue
+                data = _slurp(fp)
+                try:
+                    c = C.decode(data)
+                    if C.encode(c) != data:
+                        continue
+                except Exception:
+                    continue
+                changed = False
+                for d in c.disks.values():
+                    m = per_disk.get(d.name.decode(errors="replace"), {})
+                    for f in d.files:
+                        if f.inode in m:
+                            new = m[f.inode]
+                        elif f.inode in used:
+                            spare[0] += 1
+                            new = m[f.inode] = spare[0]
+                        else:
+                            new = f.inode
+                        if new != f.inode:
+                            f.inode = new
+                            changed = True
+                if changed:
+                    st = os.lstat(fp)
+                    with open(fp, "wb") as fh:
+                        fh.write(C.encode(c))
+                    os.utime(fp, ns=(st.st_mtime_ns, st.st_mtime_ns))
 
     def _rebase(self, ents, old_root, cfg):
         """content files of format 3 record the absolute paths of the parity splits: when a saved state is
